@@ -812,8 +812,52 @@ func (g *Graph) CutFor(assume ...string) Cut {
 				}
 			}
 		}
+		// the whole edge condition is false under the assumptions (a
+		// disjunction all of whose members are contradicted)
+		if ce.Form != nil && ce.Form.under(assume) == -1 {
+			cut[ce.E] = true
+		}
 	}
 	return cut
+}
+
+// under evaluates the formula three-valued under assumed signed atom patterns:
+// +1 true, -1 false, 0 unknown.
+func (fm *Form) under(assume []string) int {
+	switch fm.Op {
+	case 'a':
+		s := fm.String()
+		for _, as := range assume {
+			if Glob(as, s) {
+				return 1
+			}
+			if Glob(Negate(as), s) {
+				return -1
+			}
+		}
+		return 0
+	case '&':
+		r := 1
+		for _, k := range fm.Kids {
+			switch k.under(assume) {
+			case -1:
+				return -1
+			case 0:
+				r = 0
+			}
+		}
+		return r
+	}
+	r := -1
+	for _, k := range fm.Kids {
+		switch k.under(assume) {
+		case 1:
+			return 1
+		case 0:
+			r = 0
+		}
+	}
+	return r
 }
 
 // Exits returns the end points of the live blocks without successors: the
